@@ -95,6 +95,20 @@ class World:
                 with np.errstate(all="ignore"):
                     self.el[op[1]].step(net=self.net, engine=self.cs, **pars)
                 return "ok"
+            if k == "stepelfail":
+                # an element-level step of a link that fails (tau, eta, kappa missing): nothing is stepped by it
+                try:
+                    self.el[op[1]].step(net=self.net, engine=self.cs, T=PARS["T"])
+                except (TypeError, AssertionError):       # (AssertionError: the link was never initialised)
+                    return "ok"
+                return "did not fail"
+            if k == "stepallmixed":
+                # a symbolic Network.step in which the caller fixes SOME states to numbers (a float queue, a DM speed)
+                import casadi as cs
+                ic = {self.el[2]: {"w": 35.0}, self.el[1]: {"v": cs.DM([88.0])}}
+                self.net.step(engine=self.cs, init_conditions={k_: v_ for k_, v_ in ic.items() if k_ in set(self.net.elements)},
+                              **PARS_V[op[1] if len(op) > 1 else 0])
+                return "ok"
             if k == "add":
                 if op[1] == 4:
                     self.net.add_origin(self.el[4], self.N[1])
@@ -122,6 +136,10 @@ class World:
 
 def coq_op(op):
     k = op[0]
+    if k == "stepelfail":
+        return None                  # no transition of the model
+    if k == "stepallmixed":
+        return "StepAll Symbols"     # (placeholder: histories containing it are not compared with the model)
     if k == "init":
         return f"InitVars {op[1]}%nat {'Symbols' if op[2] == 'sym' else 'Numbers'}"
     if k == "stepall":
@@ -155,10 +173,14 @@ def random_history(rng, maxlen=10):
             k = rng.choice(["sym", "sym", "num"])
             h.append(("stepall", k, rng.randrange(3)))
             numeric = (k == "num")
-        elif r < 0.65:
+        elif r < 0.62:
             if numeric:
                 continue
             h.append(("stepel", rng.choice(sorted(members & {0, 1, 2, 4})), rng.randrange(3)))
+        elif r < 0.65:
+            if numeric:
+                continue
+            h.append(("stepelfail", rng.choice([0, 1])))
         elif r < 0.75:
             e = rng.choice([4, 5, 3])
             h.append(("add", e))
@@ -204,6 +226,12 @@ def directed_histories():
         [("stepall", "num"), ("init", 2, "sym"), T], [("stepall", "num"), ("init", 1, "sym"), T],
         [("add", 4), ("stepall", "sym"), ("init", 4, "sym"), T],
         [("add", 4), ("stepall", "sym"), ("init", 4, "sym"), ("stepel", 4, 1), T],
+        # a step that fails leaves the element unstepped
+        [("init", 0, "sym"), ("init", 1, "sym"), ("init", 2, "sym"), ("init", 3, "sym"), ("stepel", 0), ("stepel", 2), ("stepelfail", 1), T],
+        [("stepall", "sym"), ("init", 1, "sym"), ("stepelfail", 1), T], [("stepall", "sym"), ("init", 0, "sym"), ("stepelfail", 0), T],
+        [("stepall", "sym"), ("stepelfail", 1), T],
+        # some states fixed to numbers by the caller within a symbolic step: their next states are still results
+        [("stepallmixed", 0), T], [("stepall", "sym", 1), ("stepallmixed", 2), T], [("add", 4), ("stepallmixed", 1), T],
     ]
 
 
@@ -216,7 +244,7 @@ def run_C19(ctx):
     models = None
     if ctx["model_ok"]:
         try:
-            models, _ = dyn.cached_eval(["run_life [" + "; ".join(coq_op(o) for o in h) + "]" for h in hs], HEADER)
+            models, _ = dyn.cached_eval(["run_life [" + "; ".join(c for c in (coq_op(o) for o in h) if c) + "]" for h in hs], HEADER)
         except Exception as ex:
             out["disagreements"].append({"what": "lifecycle model could not be evaluated", "error": str(ex)[-500:]})
     distinct = set()
@@ -233,6 +261,10 @@ def run_C19(ctx):
                 out["coverage"]["evaluations"] += 1
                 if op[0] == "add":
                     obs += ["ok", "ok"] if op[1] in (5, 3) else ["ok"]
+                elif op[0] == "stepelfail":
+                    if r != "ok":
+                        out["failures"].append({"key": "C19:stepelfail", "history": h[:oi + 1], "sym": sym, "ramp": ramp,
+                                                "what": f"an element step without tau/eta/kappa returned {r} instead of raising TypeError"})
                 else:
                     obs.append(r)
                 if op[0] == "tofun":
@@ -253,7 +285,7 @@ def run_C19(ctx):
                     elif r != "RuntimeError":
                         out["failures"].append({"key": "C19:error-class", "history": h[:oi + 1], "sym": sym,
                                                 "what": f"{sym}: to_function raised {r} instead of a runtime error"})
-            if models is not None:
+            if models is not None and not any(o[0] == "stepallmixed" for o in h):
                 # (the set of elements whose symbols are arguments: order is not part of the observable)
                 m = ["function " + ",".join(sorted(x[9:].split(","), key=lambda t: int(t) if t.isdigit() else -1))
                      if x.startswith("function ") else x for x in models[hi]]
@@ -284,7 +316,7 @@ class Shadow:
         if op[0] == "init":
             self.inited[op[1]] = True
             self.stepped_after_init[op[1]] = False
-        elif op[0] == "stepall":
+        elif op[0] in ("stepall", "stepallmixed"):
             for e in self.members:
                 self.inited[e] = True
                 self.stepped_after_init[e] = True
